@@ -304,6 +304,9 @@ class SqlTrace(object):
 # ---------------------------------------------------------------------------
 # argument ledger: which public petl functions the check called, and with which keyword arguments
 
+KEYWORD_FORM = [False, 0]      # [active for the current case, calls rewritten so far]; see ArgLedger and run.run_one
+
+
 class ArgLedger(object):
     """wraps the functions in the `petl` namespace (the names the checks call through) so that every call from the harness is
     counted together with the keyword arguments it passed; calls inside petl bind the original functions and are not counted"""
@@ -358,8 +361,17 @@ class ArgLedger(object):
             code = getattr(fn, '__code__', None)
             pnames = code.co_varnames[:code.co_argcount] if code is not None else ()
 
-            def mk(name, fn, pnames=pnames):
+            varargs = bool(code is not None and code.co_flags & 0x04)
+
+            def mk(name, fn, pnames=pnames, varargs=varargs):
                 def wrapper(*a, **k):
+                    if KEYWORD_FORM[0] and len(a) > 1 and not varargs and len(a) <= len(pnames):
+                        # the same call with every argument after the first bound by name: by Python's own rules it means the same
+                        k = dict(k)
+                        for i_ in range(1, len(a)):
+                            k[pnames[i_]] = a[i_]
+                        a = a[:1]
+                        KEYWORD_FORM[1] += 1
                     calls[name] = calls.get(name, 0) + 1
                     if k:
                         d = kwargs.setdefault(name, {})
